@@ -66,4 +66,24 @@ def egsRun (body : String) : String :=
     String.join ((permsOf omega qS).map fun q => showOB (contains g q)) ++ ";" ++ toString (count g)
   | _ => "bad-case"
 
+/-- `egr` protocol (C10, e-graph path with redundancy): `egr <omega>;<gens>;<queries>;<redundant slots>;<order>` — the
+argument symmetries of a leaf term are asserted by unions and some argument positions are declared redundant (before or
+after, `<order>` is not used by the model: the answer must not depend on it).  The orbit of a redundant slot is
+redundant; on the remaining slots the class symmetries are the restrictions of the generated group
+(`C10.restricted_contains_iff`).  Output: for every query permutation whether the permuted copy is equal, the symmetry
+count and the number of remaining slots. -/
+def egrRun (body : String) : String :=
+  match body.splitOn ";" with
+  | [omS, gensS, qS, redS, _] =>
+    let omega := parseNatList omS
+    let g := mk (SlotMap.identity omega) (permsOf omega gensS)
+    let red := (parseNatList redS).flatMap fun r => orbit g r
+    let keep := omega.filter fun x => !red.contains x
+    let gk := mk (SlotMap.identity keep) ((generators g).map (restrict keep))
+    String.join ((permsOf omega qS).map fun q =>
+      if keep.all (fun x => match SlotMap.get q x with | some y => keep.contains y | none => false)
+      then showOB (contains gk (restrict keep q)) else "0")
+      ++ ";" ++ toString (count gk) ++ ";" ++ toString keep.length
+  | _ => "bad-case"
+
 end SV.Drv
